@@ -66,10 +66,14 @@ SPEC = {
         'AITB.POMDP3.pointBackup_le_qval_slack', 'AITB.POMDP3.le_backup_sound_slack', 'AITB.POMDP3.le_backup_sound',
         'AITB.POMDP3.blindSub_le_mdpSuper_slack', 'AITB.POMDP3.blindSub_sound_slack', 'AITB.POMDP3.blindSub_sound',
         'AITB.POMDP3.blindCertOK_sound', 'AITB.POMDP3.backupCertOK_sound', 'AITB.POMDP3.certChain_sound',
+        # round 2: SARSOP::backupNode as a composition of events; bestPromisingAction<false> as modelled is an upper bound
+        'AITB.POMDP3.backupNode_lower_reach', 'AITB.POMDP3.backupNode_pool_reach', 'AITB.POMDP3.backupNode_write_reach', 'AITB.POMDP3.backupNode_sound',
+        'AITB.POMDP3.sawVal_sound', 'AITB.POMDP3.sumSaw_upper', 'AITB.POMDP3.promisingActSaw_upper', 'AITB.POMDP3.maxSaw_ge', 'AITB.POMDP3.bestPromisingSaw_upper',
+        'AITB.POMDP3.sosa_row_reconstructs', 'AITB.POMDP3.gapmin_select_reach', 'AITB.POMDP3.gapmin_round_sound',
         'AITB.POMDP3.iterHV_eq', 'AITB.POMDP3.upperRefV_eq', 'AITB.POMDP3.lowerRefV_eq',
         'AITB.POMDP3.mW_valid', 'AITB.POMDP3.mW_ref_superSol', 'AITB.POMDP3.ΓW_sound',
     ],
-    'gen_obligations': ['AITB.POMDP3.src_blind_start_is_min', 'AITB.POMDP3.src_fib_start_is_max', 'AITB.POMDP3.src_fib_inner_is_max', 'AITB.POMDP3.src_cons_no_skip'],
+    'gen_obligations': ['AITB.POMDP3.src_blind_start_is_min', 'AITB.POMDP3.src_fib_start_is_max', 'AITB.POMDP3.src_fib_inner_is_max', 'AITB.POMDP3.src_cons_no_skip', 'AITB.POMDP3.src_saw_is_repaired'],
     'harness': 'harness/c03.cpp',
     'level': 'proof',
     'timeout': {'quick': 900, 'thorough': 1800},
